@@ -517,6 +517,31 @@ def check_validators(ctx, f, L, g=None):
     got = None
     for key, (S, dnf) in loops.items():
         got = dnf
+        # a loop over `checkers - {pawn}` asserting Q is the loop over all checkers asserting `it is the pawn, or Q`
+        S_ = S
+        while isinstance(S_, tuple) and S_ and S_[0] in ("ref", "deref", "iter"):
+            S_ = S_[1]
+        try:
+            minus_pawn = S_ != CHECKERS and setalg.equivalent(S_, AND(CHECKERS, NOT(("bbof", pawn))))
+        except Exception:
+            minus_pawn = False
+        if minus_pawn:
+            old_e, new_e = ("elem", S_), ("elem", CHECKERS)
+
+            def same_set(x):
+                try:
+                    return setalg.equivalent(setalg.expand_bool(x), S_)
+                except Exception:
+                    return False
+
+            def re_(x):
+                if x == old_e or (isinstance(x, tuple) and len(x) == 2 and x[0] == "elem" and same_set(x[1])):
+                    return new_e
+                if isinstance(x, tuple):
+                    return tuple(re_(y) for y in x)
+                return x
+            is_pawn = ("bin", "Eq", new_e, pawn)
+            got = [[(is_pawn, True)]] + [[(is_pawn, False)] + [(re_(a), pol) for a, pol in conj] for conj in dnf]
     if ctx.check(got is not None, "ep:checker-loop", "en_passant_is_valid does not constrain the checkers", where):
         g2 = []
         for conj in got:
